@@ -287,7 +287,11 @@ class World:
             fd.payload = self._wrap(key, fd.payload)
         self.engines = {}
         self.parsed = {}
-        self.lib_ids = frozenset(id(c) for c in ctx_objects(self.root))
+        def host_finalizer(x):
+            return x
+        # a library context WITHOUT `#finalize` (the case the fallback of Statement.__call__ exists for)
+        self.bare = yaql.create_context(finalizer=host_finalizer)
+        self.lib_ids = frozenset(id(c) for c in ctx_objects(self.root) + ctx_objects(self.bare))
 
     def _wrap(self, key, orig):
         hits, raw_hits, world = self.hits, self.raw_hits, self
@@ -361,7 +365,7 @@ def host_chain(root, hv):
     return l3
 
 
-def observe(world, text, data, mode, make_ctx=None, bound=True, eopts=None):
+def observe(world, text, data, mode, make_ctx=None, bound=True, eopts=None, bare=False):
     """one evaluation with every oracle around it.  Returns (outcome, [(key, what)])."""
     fails = []
     eo = dict(conv_in=mode)
@@ -371,7 +375,8 @@ def observe(world, text, data, mode, make_ctx=None, bound=True, eopts=None):
     except Exception as e:      # noqa
         return ('err', 'parse:' + type(e).__name__), fails
     hv = [1, [2, 3], {'k': [4]}]
-    ctx = make_ctx(world.root, hv) if make_ctx else host_chain(world.root, hv)
+    root = world.bare if bare else world.root
+    ctx = make_ctx(root, hv) if make_ctx else host_chain(root, hv)
     objs = ctx_objects(ctx)
     before = Snapshot(data)
     hv_before = Snapshot(hv)
@@ -394,7 +399,7 @@ def observe(world, text, data, mode, make_ctx=None, bound=True, eopts=None):
     if expr_snapshot(st.expression) != sb:
         fails.append(('statement-changed', 'the parsed statement carries new state after the evaluation: %s' %
                       first_diff(sb, expr_snapshot(st.expression))))
-    if out[0] == 'ok' and eo.get('conv_out', True):
+    if out[0] == 'ok' and eo.get('conv_out', True) and not bare:       # without a finaliser values are handed out as they are
         nodes = []
         walk_result(out[1], nodes)
         for n in nodes:
@@ -427,6 +432,14 @@ VALUES = {
     'set_int': lambda: {1, 2, 3},
     'set_str': lambda: {'a', 'b'},
     'set_tuples': lambda: {(1, 2), (3,)},
+    'fill_list': lambda: [7, [8]],
+    'fill_dict': lambda: {'p': 0, 'q': [9]},
+    'fill_set': lambda: {8, 9},
+    'list_one': lambda: [[5]],
+    'list_empty': lambda: [],
+    'dict_empty': lambda: {},
+    'dict_intkeys': lambda: {1: [1], 2: {'x': [2]}},
+    'list_mixed': lambda: [1, 'a', None, [2, 'b'], {'k': [3]}],
 }
 SCALARS = {
     'one': lambda: 1, 'zero': lambda: 0, 'two': lambda: 2, 'neg': lambda: -1, 'true': lambda: True,
@@ -501,7 +514,8 @@ class Plan:
                         fill = ('data', SCALARS[s])
                         break
                 if fill is None and adm:
-                    fill = ('data', VALUES[adm[0]])
+                    pref = [f for f in ('fill_list', 'fill_dict', 'fill_set') if f in adm]
+                    fill = ('data', VALUES[pref[0] if pref else adm[0]])
                 if fill is None and isinstance(vt, yaqltypes.Iterator):
                     fill = ('iter', VALUES['list_int'])
                     self.admits[n] = ['list_int', 'list_nested', 'list_dicts']
@@ -596,19 +610,20 @@ HAND = [
     ('$', None), ('$.a0', None), ('$.a0.len()', None), ('$.a0?.len()', None), ('$?.a0', None),
     ('let(x => $.a0) -> $x', None), ('let($.a0) -> [$1, $1]', None), ('with($.a0, $.a0) -> [$1, $2]', None),
     ('$.a0.unpack() -> [$1]', 'seq'), ('[$.a0, $.a0]', None), ('{k => $.a0}', None), ('{k => $.a0}.k', None),
-    ('def(f, $ ) -> f($.a0)', None), ('call(len, [$.a0], {})', None), ('call(select, [$.a0, $], {})', 'seq'),
+    ('def(f, $ ) -> f($.a0)', None), ('call(len, [$.a0], {})', None), ('call(len, [], {collection => $.a0})', 'seq'),
     ('$.a0.select($)', 'seq'), ('$.a0.where(true)', 'seq'), ('$.a0.toList()', 'seq'), ('list($.a0)', None),
     ('$.a0.orderBy($).thenBy($)', 'seq'), ('$.a0.orderByDescending($).thenByDescending($)', 'seq'),
     ('$.a0.items()', 'dict'), ('$.a0.keys()', 'dict'), ('$.a0.values()', 'dict'), ('dict($.a0.items())', 'dict'),
     ('$.a0.toSet()', 'seq'), ('set($.a0)', None), ('$hostList', None), ('$hostList + $.a0', 'seq'),
-    ('hostFn($.a0)', None), ('hostFn($hostList)', None), ('[$.a0].flatten()', None), ('$.a0.as($ => x) -> $x', None),
+    ('hostFn($.a0)', None), ('hostFn($hostList)', None), ('[$.a0].flatten()', None), ('let(a => $.a0, b => $) -> [$a, $b.a0]', None),
 ]
 
 
 def sweep_cases(world, rng, tier, focus):
     plans = {}
     cases = []
-    nvals = 3 if tier == 'quick' else 8
+    base_values = list(VALUES)
+    nvals = 6 if tier == 'quick' else 30
     for key, fd in sorted(world.reg.items()):
         try:
             plan = plans[key] = Plan(world, key, fd)
@@ -624,7 +639,8 @@ def sweep_cases(world, rng, tier, focus):
             lams = (LAMBDAS if has_lambda else ['$'])
             if tier == 'quick' and has_lambda and key not in focus:
                 lams = [LAMBDAS[0], rng.choice(LAMBDAS[1:])]
-            for vname in picks:
+            rand = [random_value(rng, adm) for _ in range(2 if tier == 'quick' else 6)]
+            for vname in picks + [r for r in rand if r]:
                 for method in spellings:
                     for lam in lams:
                         variants = ['plain']
@@ -639,7 +655,7 @@ def sweep_cases(world, rng, tier, focus):
                                 cases.append(dict(part='sweep', fn=key, target=target, value=vname, text=text,
                                                   data=data, mode=mode))
     for text, shape in HAND:
-        for vname in VALUES:
+        for vname in base_values:
             if shape == 'seq' and not vname.startswith(('list', 'set')):
                 continue
             if shape == 'dict' and not vname.startswith('dict'):
@@ -648,6 +664,33 @@ def sweep_cases(world, rng, tier, focus):
                 cases.append(dict(part='sweep', fn='<hand>', target='a0', value=vname, text=text,
                                   data={'a0': VALUES[vname]}, mode=mode))
     return cases, plans
+
+
+def random_value(rng, adm):
+    """a seeded random nested document of a kind the position admits; registered under a new name in VALUES"""
+    kinds = sorted({a.split('_')[0] for a in adm} & {'list', 'dict', 'set'})
+    if not kinds:
+        return None
+    kind = rng.choice(kinds)
+
+    def sc():
+        return rng.choice([0, 1, 2, -1, 5, 'a', 'b', 'xy', None, True, 1.5])
+
+    def gen(k, depth):
+        n = rng.choice([0, 1, 2, 3, 4])
+        if k == 'set':
+            return {rng.choice([0, 1, 2, 5, 'a', 'b', (1, 2)]) for _ in range(n)}
+        def item():
+            if depth <= 0 or rng.random() < 0.5:
+                return sc()
+            return gen(rng.choice(['list', 'list', 'dict', 'set']), depth - 1)
+        if k == 'list':
+            return [item() for _ in range(n)]
+        return {rng.choice(['a', 'b', 'c', 'k', 1]): item() for _ in range(n)}
+    v = gen(kind, 3)
+    name = '%s_rnd%d' % (kind, len(VALUES))
+    VALUES[name] = lambda v=v: copy.deepcopy(v)
+    return name
 
 
 def materialise(data):
@@ -666,7 +709,8 @@ POOL = [
     '$hostList', '$hostList.len()', '$hostList + $.a', '$n + 1', 'hostFn($.a)', '[$top, $m, $n]', '$.a.len() + $.d.len()',
     '$.a.any($ = 1)', '$.a.indexOf(1)', '$.a.take(2)', '$.a.skip(1)', '$.a.append(1)', '$.a.contains(1)',
     '$.d.containsKey(a)', '$.d.toList()', '$.a.zip($.a)', '$.a.limit(1)', '$.a.toList().set(0, 5)',
-    '$.a.replace(0, 7)', '$.a.delete(0)', '$.a.join($.a, true, [$1, $2]).len()',
+    '$.a.replace(0, 7)', '$.a.delete(0)', '$.a.join($.a, true, [$1, $2]).len()', '$.a.select($).len()',
+    'len($.a.select($))', '$.a.where(true).count()', '$.a.select($).toList()', '$.d.values().len()', '$.a.len() + $hostList.len()',
 ]
 POOL_DATA = [
     lambda: {'a': [3, 1, 2], 'd': {'a': 1, 'b': [2]}},
@@ -811,9 +855,12 @@ def run_ctx(world, drv, res, rng, tier, hist):
         impl = c17.Impl()
         real_ops, obs = [], []
         ok = True
+        lib = world.bare if ci % 3 == 0 else world.root
+        hist['ctx-forest-' + ('without' if lib is world.bare else 'with') + '-finalize'] = \
+            hist.get('ctx-forest-' + ('without' if lib is world.bare else 'with') + '-finalize', 0) + 1
         for op in ops:
             if op['o'] == 'plain' and op['parent'] is None:
-                impl.hs.append(contexts.Context(world.root))        # real roots sit on the standard library
+                impl.hs.append(contexts.Context(lib))        # real roots sit on the standard library
                 r = 'ok'
             else:
                 r = impl.step(op)
@@ -1136,7 +1183,9 @@ def run_conv(world, drv, res, rng, tier, hist):
                          case['op'], real['shared'], sorted(m['shared']), short(case)), dict(part='conv', case=case))
             return
         exp = strip_ids(m['ok'])
-        if not c10.matches(mark_sets(exp), real['struct']):
+        # with convertSetsToLists a set is handed out as a list in the set's (unspecified) iteration order
+        loose = case['s2l'] and has_set(case['v'])
+        if not c10.matches(mark_sets(exp, loose), real['struct']):
             res.fail('mismatch', 'conv-model', 'conv: structure differs: model %s, real %s' % (
                 json.dumps(exp)[:400], json.dumps(real['struct'])[:400]), dict(part='conv', case=case))
             return
@@ -1160,13 +1209,21 @@ def mutable_ids(j, out=None):
     return out
 
 
-def mark_sets(j):
+def has_set(j):
+    if c10.is_scalar_j(j):
+        return False
+    if 'm' in j:
+        return any(has_set(k) or has_set(v) for k, v in j['l'])
+    return j['q'] in ('set', 'fset') or any(has_set(x) for x in j['l'])
+
+
+def mark_sets(j, loose=False):
     if c10.is_scalar_j(j):
         return j
     if 'm' in j:
-        return {'m': j['m'], 'l': [[mark_sets(k), mark_sets(v)] for k, v in j['l']]}
-    r = {'q': j['q'], 'l': [mark_sets(x) for x in j['l']]}
-    if j['q'] in ('set', 'fset'):
+        return {'m': j['m'], 'l': [[mark_sets(k, loose), mark_sets(v, loose)] for k, v in j['l']]}
+    r = {'q': j['q'], 'l': [mark_sets(x, loose) for x in j['l']]}
+    if j['q'] in ('set', 'fset') or (loose and j['q'] == 'list'):
         r['unordered'] = True
     return r
 
@@ -1208,15 +1265,27 @@ def run_yaqlized(world, res, hist):
 
 # ====================================================================================== run
 
-def replay_case(world, res, case):
+def replay_case(world, drv, res, case, hist):
     part = case.get('part')
     if part == 'sweep':
         data = eval(case['data'], dict(PYNS))     # noqa: S307 - our own replay file
-        out, fails = observe(world, case['text'], data, case['mode'])
+        out, fails = observe(world, case['text'], data, case['mode'], bare=case.get('bare', False))
         for key, what in fails:
             res.fail('oracle', key, '%s (expression %s, yaql.convertInputData=%s, data %s)' % (
                 what, case['text'], case['mode'], case['data']), case)
         res.case(('replay', case['text']))
+        return True
+    if part in ('pool', 'ctx', 'conv', 'yaqlized') and 'seed' in case:
+        rng = common.make_rng(case['seed'], ID + part)
+        tier = case.get('tier', 'quick')
+        if part == 'pool':
+            run_pool(world, res, rng, tier, hist)
+        elif part == 'ctx':
+            run_ctx(world, drv, res, rng, tier, hist)
+        elif part == 'conv':
+            run_conv(world, drv, res, rng, tier, hist)
+        else:
+            run_yaqlized(world, res, hist)
         return True
     return False
 
@@ -1234,7 +1303,8 @@ def run(env, res):
     if env.get('replay'):
         rp = json.load(open(env['replay']))
         case = rp.get('case') or rp
-        if isinstance(case, dict) and replay_case(world, res, case):
+        if isinstance(case, dict) and replay_case(world, drv, res, case, hist):
+            res.extra['histogram'] = hist
             return
     # offending rows of the generated table direct the budget
     focus = set()
@@ -1247,6 +1317,7 @@ def run(env, res):
     first_fail = None
     budget = 55 if tier == 'quick' else 400
     order = list(range(len(cases)))
+    rng.shuffle(order)          # a budget cut drops a random subset, not the tail of the alphabet
     if focus:
         order.sort(key=lambda i: cases[i]['fn'] not in focus)
     done = 0
@@ -1257,8 +1328,11 @@ def run(env, res):
             break
         data = materialise(c['data'])
         h0 = world.hits.get(c['fn'], 0)
-        out, fails = observe(world, c['text'], data, c['mode'])
+        bare = (i % 7 == 3)
+        out, fails = observe(world, c['text'], data, c['mode'], bare=bare)
         done += 1
+        if bare:
+            hist['sweep-on-context-without-finalize'] = hist.get('sweep-on-context-without-finalize', 0) + 1
         reached = c['fn'] == '<hand>' or world.hits.get(c['fn'], 0) > h0
         sig = (c['fn'], c['target'], c['value'], c['mode'])
         res.case(sig, nontrivial=reached and sig not in entered,
@@ -1273,7 +1347,7 @@ def run(env, res):
                 first_fail = True
             res.fail('oracle', key, '%s: %s (expression %s, yaql.convertInputData=%s, data %s)' % (
                 c['fn'], what, c['text'], c['mode'], pyrepr(materialise(c['data']))),
-                dict(part='sweep', fn=c['fn'], text=c['text'], mode=c['mode'], data=pyrepr(materialise(c['data']))))
+                dict(part='sweep', fn=c['fn'], text=c['text'], mode=c['mode'], bare=bare, data=pyrepr(materialise(c['data']))))
         if len(res.failures) >= 8:
             break
     fns = {k for k in world.reg}
@@ -1287,16 +1361,19 @@ def run(env, res):
     hist['collection-functions-never-entered'] = sorted(coll - hit)[:40]
     hist['collection-functions-never-reached-by-a-raw-container'] = sorted(coll - raw)[:60]
     hist['seconds-sweep'] = round(time.time() - t0, 1)
-    if not res.failures:
+    for part, fn in (('pool', lambda r: run_pool(world, res, r, tier, hist)),
+                     ('ctx', lambda r: run_ctx(world, drv, res, r, tier, hist)),
+                     ('conv', lambda r: run_conv(world, drv, res, r, tier, hist)),
+                     ('yaqlized', lambda r: run_yaqlized(world, res, hist))):
+        if res.failures:
+            break
         t1 = time.time()
-        run_pool(world, res, rng, tier, hist)
-        hist['seconds-pool'] = round(time.time() - t1, 1)
-    if not res.failures:
-        run_ctx(world, drv, res, rng, tier, hist)
-    if not res.failures:
-        run_conv(world, drv, res, rng, tier, hist)
-    if not res.failures:
-        run_yaqlized(world, res, hist)
+        fn(common.make_rng(env['seed'], ID + part))
+        hist['seconds-' + part] = round(time.time() - t1, 1)
+        for f in res.failures:          # every part is reproducible on its own from (seed, tier)
+            if isinstance(f.replay, dict) and f.replay.get('part') == part:
+                f.replay.setdefault('seed', env['seed'])
+                f.replay.setdefault('tier', tier)
     res.extra['histogram'] = hist
     res.extra['generated_table'] = dict(rows=(env.get('gen') or {}).get('rows'), flagged=[
         '%s:%s' % (f['fn'], f['param']) for f in (env.get('gen') or {}).get('flagged', [])])
